@@ -52,9 +52,19 @@ class ExprMixin:
                 fr = st.frames.get(fr.parent) if fr.parent else None
         return self.lookup_global(f.module, name, st)
 
+    def check_guarded_global(self, module, name, st, what):
+        """A module global declared with a guard is only read / written while the guarding lock is held (code under verification only)."""
+        d = self.schema.globs.get((module, name))
+        if d is None or not d.guard or self.spec or getattr(self, "cur_key", None) is None or not self.cur_key.startswith(module + ":"):
+            return
+        lockv = [v for s_, v in self.glob_value(st, module, d.guard)][0]
+        g = z3.Or([h == lockv.t for h in st.held] or [z3.BoolVal(False)])
+        self.prove(st, g, f"{self.cur_key}:guarded-global/{name}/{what}-only-under-{d.guard}", prop=self.prop_of(None), kind="lock-discipline")
+
     def lookup_global(self, module, name, st):
         key = (module, name)
         if key in self.schema.globs:
+            self.check_guarded_global(module, name, st, "read")
             return [self.val(s, v) for s, v in self.glob_value(st, module, name)]
         mi = self.repo.module(module)
         if name in mi.classes:
